@@ -12,7 +12,7 @@ RULE = ('one case = four target names (one per category, drawn without replaceme
         'observed in 8 real executions: alone / first / middle / last position among fresh random neighbours, server and client role, text and JSON, plus one --lookup invocation.  Probes are refused by the peer '
         '(no size attributes) and the Terrapin context is pinned (strict-kex marker present whenever a target has ChaCha/CBC/ETM shape; neighbours never have that shape).  Oracle: per level the multiset of note texts '
         'is identical in every observation; unknown names say "unknown" everywhere and are never shown at the good/info level.  Non-trivial: >= 4 observations of >= 1 target compared; distinct = distinct target sets')
-REQUIRED = {'observations': 500, 'targets_compared': 60, 'lookup_views': 15, 'json_views': 30, 'client_views': 30, 'gss_targets': 2, 'unknown_targets': 2}
+REQUIRED = {'crosscat_names': 20, 'observations': 500, 'targets_compared': 60, 'lookup_views': 15, 'json_views': 30, 'client_views': 30, 'gss_targets': 2, 'unknown_targets': 2}
 ASSUMPTIONS = ['measured attributes are controlled, not inferred: host-key and group-exchange probes are refused, the Terrapin context is pinned as described in the rule',
                'the level at which an unknown name is flagged is not compared across views (C15 exempts unknown names); only "says unknown, never good" is required']
 MANIFEST = {
@@ -45,6 +45,9 @@ def cases(tier, seed):
     for i, (cat, name) in enumerate(shaped if tier == 'thorough' else shaped[:3]):
         t = {c_: [n for n in pools[c_] if not gen.is_terrapin_shape(n)][i] for c_ in pools}
         cs.append({'kind': 'targets', 'targets': t, 'unknown_cat': cat, 'unknown_name': name, 'seed': rng.randrange(1 << 30)})
+    # the same names advertised in several categories at once: the rating goes by (category, name), never by the name alone
+    for i in range(4 if tier == 'quick' else 24):
+        cs.append({'kind': 'crosscat', 'seed': rng.randrange(1 << 30)})
     return cs
 
 
@@ -60,7 +63,54 @@ def canon(notes):
     return {k: sorted(v) for k, v in out.items()}
 
 
+def run_crosscat(c):
+    rng = random.Random(c['seed'])
+    names = audit.db_names()
+    shared = []
+    for cat in ('enc', 'mac', 'key', 'kex'):
+        shared += rng.sample([n for n in names[cat] if not n.endswith('-*') and not gen.is_terrapin_shape(n) and not n.startswith('kex-strict')], 2)
+    both = [n for n in names['enc'] if n in names['mac'] and not gen.is_terrapin_shape(n)]
+    shared += rng.sample(both, min(2, len(both)))
+    rng.shuffle(shared)
+    lists = {cat: list(shared) for cat in ('kex', 'key', 'enc', 'mac')}
+    lists['kex'] = lists['kex'] + [MARK_S]
+    script = {'banner': 'SSH-2.0-OpenSSH_9.%d' % rng.randint(0, 9), 'kex': audit.sym_kex(lists['kex'], lists['key'], lists['enc'], lists['mac']), 'hostkeys': {}, 'hostkey_default': None, 'gex': None}
+    rt, _p = audit.audit_server(script, ['-n'])
+    rj, _p = audit.audit_server(script, ['-j'])
+    viol, counters = [], {'observations': 0, 'json_views': 1, 'targets_compared': 0, 'crosscat_names': 0}
+    if rt.status not in (0, 2, 3) or rj.status not in (0, 2, 3):
+        viol.append(_v('C03/audit-failed:status%s' % rt.status, 'audit did not complete', out=(rt.out + rj.out)[-300:]))
+        return {'violations': viol, 'counters': counters}
+    rep = report.parse_text(rt.out)
+    doc = json.loads(rj.out)
+    for cat in ('kex', 'key', 'enc', 'mac'):
+        tnotes = {a.name: canon(a.notes) for a in rep.algs[cat]}
+        jnotes = {e['algorithm']: canon([(lvl, t) for lvl in ('fail', 'warn', 'info') for t in (e.get('notes') or {}).get(lvl, [])]) for e in doc.get(cat) or []}
+        for n in shared:
+            if n not in tnotes or n not in jnotes:
+                viol.append(_v('C03/target-missing:crosscat', 'a name listed in several categories is missing from one of them', cat=cat, name=n))
+                continue
+            counters['observations'] += 2
+            counters['crosscat_names'] += 1
+            t, j = tnotes[n], jnotes[n]
+            t_unknown = any('unknown' in x for x in t['fail'] + t['warn'])
+            j_unknown = any('unknown' in x for x in j['fail'] + j['warn'])
+            if t_unknown != j_unknown:
+                viol.append(_v('C03/crosscat-unknown-flag-differs:' + cat, 'a name is unknown in this category in one view but not in the other', cat=cat, name=n, text=t, json=j))
+            elif not t_unknown and t != j:
+                viol.append(_v('C03/crosscat-views-disagree:' + cat, 'notes of a name listed in several categories differ between text and JSON for this category', cat=cat, name=n, text=t, json=j))
+    counters['targets_compared'] = 1
+    seen, uniq = set(), []
+    for v in viol:
+        if v['key'] not in seen:
+            seen.add(v['key'])
+            uniq.append(v)
+    return {'violations': uniq, 'counters': counters, 'nontrivial': counters['crosscat_names'] > 0, 'sample': {'shared_names': shared, 'observations': counters['observations']}, 'sample_kind': 'crosscat'}
+
+
 def run_case(c):
+    if c.get('kind') == 'crosscat':
+        return run_crosscat(c)
     rng = random.Random(c['seed'])
     names = audit.db_names()
     targets = dict(c['targets'])
